@@ -23,6 +23,11 @@ type stdioPeerCfg struct {
 	KillSelf   int               `json:"kill_self"`  // SIGKILL-like abrupt exit after this many lines (0 = never)
 	Silent     []string          `json:"silent"`     // methods that are never answered
 	DelayMs    int               `json:"delay_ms"`
+	// C08: after this many tools/call lines the answer to the first of them is cut at FaultAt and the fault follows
+	FaultAfterCalls int    `json:"fault_after_calls"`
+	Fault           string `json:"fault"`    // exit kill stall close
+	FaultAt         string `json:"fault_at"` // boundary name or byte:N
+	FaultFile       string `json:"fault_file"`
 	AnswerFile string            `json:"answer_file"` // when set: every non-initialize request is answered from this file ({"raw":..,"is_err":..})
 }
 
@@ -60,6 +65,9 @@ func stdioPeerMain(args []string) int {
 	rd := bufio.NewReaderSize(os.Stdin, 1<<20)
 	lines := 0
 	inits := 0
+	faultCalls := 0
+	var faultID json.RawMessage
+	faultNonce := ""
 	for {
 		line, err := rd.ReadString('\n')
 		if line == "" && err != nil {
@@ -79,6 +87,48 @@ func stdioPeerMain(args []string) int {
 			Method string          `json:"method"`
 		}
 		json.Unmarshal([]byte(line), &m)
+		if cfg.FaultAfterCalls > 0 && m.Method == "tools/call" && faultCalls < cfg.FaultAfterCalls {
+			var a struct {
+				Params struct {
+					Arguments struct {
+						Nonce string `json:"nonce"`
+					} `json:"arguments"`
+				} `json:"params"`
+			}
+			json.Unmarshal([]byte(line), &a)
+			faultCalls++
+			if faultCalls == 1 {
+				faultID, faultNonce = m.ID, a.Params.Arguments.Nonce
+			}
+			if faultCalls == cfg.FaultAfterCalls {
+				parts := []string{c08Notif + "\n", c08Text(faultID, faultNonce) + "\n"}
+				all, off, deliv := (&c08Srv{sc: c08Scenario{At: cfg.FaultAt}}).cut("", parts)
+				write(all[:off])
+				time.Sleep(30 * time.Millisecond)
+				d := 0
+				if deliv {
+					d = 1
+				}
+				os.WriteFile(cfg.FaultFile+".tmp", []byte(fmt.Sprintf("%d %d %d %d %s", time.Now().UnixNano(), d, off, len(all), faultNonce)), 0644)
+				os.Rename(cfg.FaultFile+".tmp", cfg.FaultFile)
+				switch cfg.Fault {
+				case "exit":
+					os.Exit(0)
+				case "kill":
+					p, _ := os.FindProcess(os.Getpid())
+					p.Kill()
+					time.Sleep(time.Second)
+				case "close":
+					os.Stdout.Close()
+					select {}
+				case "none":
+					// keep serving
+				default:
+					select {}
+				}
+			}
+			continue
+		}
 		instead := false
 		for _, e := range cfg.Emit {
 			if e.AtLine == lines && e.When == "before" {
